@@ -280,7 +280,10 @@ def cli_check(ctx, hl, dist, cov, only=None, only_q=None):
         if len(s) > 5000 or not s or b"\n" in s and False:
             continue
         cases.append(s)
-    model = hl.model(["cli %s %d" % (hx(s), LIMIT) for s in cases])
+    # the model of the opt.c that is under test: `clir` = Hostlist/CliRefuse.lean cliTargetsR (repaired opt.c, d1c94df:
+    # a word that yields nothing is refused and quoted -- `badword:<hex>`, compared verbatim with pdsh's diagnostic);
+    # `cli` = Cli.lean cliTargets (code as found: the word is dropped; C15.cliTargetsR_agrees relates the two)
+    model = hl.model(["%s %s %d" % ("cli" if drops else "clir", hx(s), LIMIT) for s in cases])
     spec = hl.spec(cases)
     ncli = 0
     for s, m, sp in zip(cases, model, spec):
@@ -313,19 +316,9 @@ def cli_check(ctx, hl, dist, cov, only=None, only_q=None):
         icls = "crash" if cls.startswith("crash") else cls
         v0 = parse_spec(sp)
         unbal = (not v0["ok"]) and "unbalanced" in v0["problems"]
-        badword_ok = False
-        if icls.startswith("badword:") and not drops and mcls in ("ok", "nohosts"):
-            # repaired opt.c (d1c94df, the default): the argument is refused, the word is quoted.  The Cli model
-            # still mirrors the code as found (the word is dropped): the refusal is right exactly when the quoted
-            # word, on its own, yields no host (the parse fails or the list is empty) -- asked of the model
-            mw = hl.model(["probe %s 10" % hx(unhx(icls[8:]))])[0]
-            badword_ok = mw.startswith("null") or mw.startswith("ok | 0 ")
-            dist["cli-badword-refused"] = dist.get("cli-badword-refused", 0) + badword_ok
-        if badword_ok:
-            pass
-        elif unbal and not drops and icls not in ("ok", "crash", "timeout"):
-            pass    # repaired opt.c: the argument is refused where the model (code as found) drops the word
-        elif icls != mcls and not (mcls == "crash" and icls in ("ok", "nohosts")):
+        if icls.startswith("badword:"):
+            dist["cli-badword-refused"] = dist.get("cli-badword-refused", 0) + 1
+        if icls != mcls and not (mcls == "crash" and icls in ("ok", "nohosts")):
             ctx.disagreement("hl model (cli) vs pdsh -Q", "text %r: pdsh %s model %s" % (s[:200], cls, m[:200]), case)
         if cls.startswith("crash") or cls == "timeout":
             big = feat_big(s)
